@@ -58,6 +58,10 @@ def make_sequence_data(omega, delta, phi, U, target_times, *, qubit_ids=None, ba
     from emu_base.pulser_adapter import HamiltonianType, _InteractionMatrixCallable
 
     def c(x):
+        # NB: torch.as_tensor on a Python list of floats gives float32 (1e-8 relative rounding): go through float64
+        if not isinstance(x, torch.Tensor):
+            import numpy as _np
+            x = _np.asarray(x, dtype=_np.complex128)
         return torch.as_tensor(x).to(torch.complex128).clone()
 
     omega, delta, phi = c(omega), c(delta), c(phi)
